@@ -40,6 +40,7 @@ Not decided: that a warning never alters *dependent* definitions' bindings in wa
     empties(m, ctx, &consts);
     key(m, ctx);
     pair(m, ctx, &consts);
+    header(m, ctx);
     local(m, ctx, &consts);
     discard(m, ctx);
 }
@@ -574,4 +575,42 @@ fn stmts_deep(b: &syn::Block) -> Vec<syn::Stmt> {
     let mut v = V { out: &mut out };
     syn::visit::Visit::visit_block(&mut v, b);
     out
+}
+
+/// C10.header: definitions reach a backend grouped by the module header attached to them (internal_compile groups by
+/// get_module_header(); generate_module takes the header of the group's first definition). A definition kind that is
+/// never given its header falls into a group of its own that generates nothing and reports nothing. So
+/// set_module_header must write the header for every ToplevelDefinition variant, get_module_header must read it for
+/// every variant, and the parser must call set_module_header on every definition it returns.
+fn header(m: &Model, ctx: &mut Ctx) {
+    let Ok(en) = m.find_enum("ToplevelDefinition") else {
+        ctx.fail_closed("C10.header", "enum ToplevelDefinition not found");
+        return;
+    };
+    for fname in ["set_module_header", "get_module_header"] {
+        let Some(f) = m.fns.iter().find(|f| f.name == fname && f.self_ty.as_deref() == Some("ToplevelDefinition")) else {
+            ctx.fail_closed("C10.header", &format!("anchor not found: ToplevelDefinition::{}", fname));
+            continue;
+        };
+        ctx.func(&f.key);
+        let Some(mt) = model::matches_in(&f.block).into_iter().find(|mt| tok(&mt.expr) == "self") else {
+            ctx.fail_closed("C10.header", &format!("{}: no `match self`", fname));
+            continue;
+        };
+        for v in &en.variants {
+            ctx.oblige("C10.header", &format!("{}:{}", fname, v), true);
+            let arm = mt.arms.iter().find(|a| tok(&a.pat).split('|').any(|alt| alt.contains(&format!("::{}(", v)))).or_else(|| mt.arms.iter().find(|a| tok(&a.pat) == "_"));
+            let ok = match arm {
+                Some(a) => {
+                    let b = tok(&a.body);
+                    b.contains("module_header") && !b.starts_with("return") && b != "()" && b != "{}"
+                }
+                None => false,
+            };
+            if !ok {
+                ctx.violate("C10.header", &format!("{}:{}", fname, v), &f.file, arm.map(|a| span_line(a)).unwrap_or(f.line),
+                    &format!("ToplevelDefinition::{} does not {} the module header for a {} definition: such a definition is grouped apart from its module, generate_module finds no header for the group and returns nothing — the assignment is neither rendered nor reported", fname, if fname.starts_with("set") { "store" } else { "return" }, v));
+            }
+        }
+    }
 }
